@@ -23,7 +23,7 @@ def valid_close_code(code):
     """RFC 6455 7.4: 1000-1003, 1007-1014 may be sent by an endpoint; 1004-1006, 1015 and the rest of
     1xxx..2999 are reserved; 3000-4999 are for libraries/applications.  (Anything >= 2000 is accepted here:
     the documented rule is 'must be >= 1000 and unreserved'.)"""
-    if type(code) is not int or code < 1000:
+    if not isinstance(code, int) or code < 1000:      # int subclasses (IntEnum members) are ints; True/False are 1/0
         return False
     if 1004 <= code <= 1006 or 1015 <= code <= 1999:
         return False
@@ -305,7 +305,8 @@ class SessionModel:
         v = op['_v']
         self._send_common(op, facts, attempts, res, gone, not isinstance(v, str),
                           lambda ev: isinstance(ev, dict) and ev.get('type') == 'websocket.send' and
-                          type(ev.get('text')) is str and ev.get('text') == v and ev.get('bytes') is None)
+                          isinstance(ev.get('text'), str) and wire_text(ev.get('text')) == wire_text(v) and
+                          ev.get('bytes') is None)
 
     def _op_send_data(self, op, facts, attempts, res, gone):
         v = op['_v']
@@ -451,6 +452,12 @@ def expected_final_code(terminal, error_close_code, rejected):
     if error_close_code in rejected:
         return [error_close_code, FALLBACK_ERROR_CODE]
     return [error_close_code]
+
+
+def wire_text(t):
+    """The characters a server puts on the wire for a text value: the str data itself, whatever the
+    class of the object says about its display forms (__str__/__repr__/__format__)."""
+    return str.encode(t, 'utf-8', 'surrogatepass')
 
 
 def _pairs(hdrs):
